@@ -360,7 +360,7 @@ func runSem(be *semBackend) int {
 	d1 := 1
 	forEachProgram(r, fams, nil, func(p *prog) {
 		d := d1
-		if (strings.HasPrefix(p.Case.Family, "F2") || strings.HasPrefix(p.Case.Family, "F3")) && !r.Thorough() {
+		if (strings.HasPrefix(p.Case.Family, "F2") || strings.HasPrefix(p.Case.Family, "F3") || strings.HasPrefix(p.Case.Family, "F4c")) && !r.Thorough() {
 			d = 0
 		}
 		semProgram(r, be, p, d)
